@@ -108,6 +108,10 @@ func (op *FsTxn) GetInodeInumFree(inum common.Inum) *inode.Inode {
 }
 
 func (op *FsTxn) GetInodeInum(inum common.Inum) *inode.Inode {
+	if inum >= op.Fs.Super.NInode() {
+		// no such inode: reading it would go past the inode table
+		return nil
+	}
 	ip := op.GetInodeInumFree(inum)
 	if ip == nil {
 		return nil
